@@ -272,7 +272,13 @@ func runC09(c *Ctx) {
 			case "Matches":
 				calls = append(calls, Event{"op": "Matches", "item": ints(it)})
 			case "Reload":
-				calls = append(calls, loadCall(c, "Reload", nb, nh, tw, ci%3, true))
+				// reload with another size / hash count / tweak: nothing may survive from the old message
+				nb2 := shapes[(ci+1+len(calls))%len(shapes)]
+				nh2 := hashes[(ci+len(calls))%len(hashes)]
+				if nh2 == 50 && nb2 == 36000 {
+					nh2 = 3
+				}
+				calls = append(calls, loadCall(c, "Reload", nb2, nh2, randTweak(c, ci+len(calls)), (ci+1)%3, true))
 			case "ReloadNil":
 				calls = append(calls, Event{"op": "Reload", "nil": true})
 			case "Unload":
@@ -328,6 +334,7 @@ func runC09(c *Ctx) {
 				if r.Intn(2) == 0 {
 					calls = append(calls, Event{"op": "Unload"})
 				} else {
+					nb = []int{1, 2, 3, 4, 8, 33, 64, 65, 1000, 36000}[r.Intn(10)] // a different size
 					calls = append(calls, loadCall(c, "Reload", nb, nh, randTweak(c, s), k%3, true))
 				}
 				added, addedOP = nil, nil
